@@ -16,7 +16,7 @@ def make_cases(chk):
         rng = random.Random(chk.seed * 100003 + 30000 + i)
         gens.append(gen.history(rng, rng.randint(6, hi), weights=WEIGHTS, trace=(i % 6 == 5)))
     gens += boundary_cases(chk)
-    gens += gen.twin_lot_cases(chk.seed) + gen.twin_lot_cases(chk.seed, 'fill') + gen.short_well_cases(chk.seed)
+    gens += gen.twin_lot_cases(chk.seed) + gen.twin_lot_cases(chk.seed, 'fill') + gen.short_well_cases(chk.seed) + gen.repeated_well_cases(chk.seed)
     return gens
 
 
